@@ -77,6 +77,22 @@ package generator
 //@ ensures schema.Format != binary && !vs_overridden(schema.Extensions) && isRequired && !schema.ReadOnly ==> result
 //@ ensures schema.Format != binary && !vs_overridden(schema.Extensions) && schema.ReadOnly ==> !result
 
+//@ func hasValidations
+//@ props C02
+//@ safety
+//@ modifies nothing
+//@ requires model != nil
+//@ ensures isRequired ==> result
+//@ ensures old(vs_anyConstraint(model)) ==> result
+//@ ensures old(len(model.Properties) > 0 && model.Discriminator == "") ==> result
+
+//@ func (*schemaGenContext).MergeResult
+//@ props C02
+//@ requires sg != nil && other != nil
+//@ ensures old(sg.GenSchema.HasValidations) ==> sg.GenSchema.HasValidations
+//@ ensures old(other.GenSchema.HasValidations) ==> sg.GenSchema.HasValidations
+//@ ensures old(sg.GenSchema.HasContextValidations || other.GenSchema.HasContextValidations) ==> sg.GenSchema.HasContextValidations
+
 //@ func guardValidations
 //@ props C02
 //@ requires schema != nil
